@@ -92,6 +92,10 @@ class _RandomShim(object):
     def uniform(self, a, b):
         return CTX.world.host_rng().uniform(a, b)
 
+    def getrandbits(self, k):
+        # a stream of its own (identifiers): the stream behind the timers stays what it was
+        return CTX.world.host_rng_aux().getrandbits(k)
+
 
 def install():
     """Import the repository from REPO and rebind every seam. Idempotent."""
